@@ -834,3 +834,109 @@ def json_e2e_scalar_compare(v: int, c: int, ne: bool, json1: bool) -> bool:
     v, c, ne, json1 = conc(v, 13), conc(c, 7), cbool(ne), cbool(json1)
     with NoTracing():
         return ok(_e2e_run({'x': CMP_LEAVES[v]}, 'F', 't.j[{0}] %s %r' % ('!=' if ne else '==', CMP_CONSTS[c]), 'x', 0, json1))
+
+
+# two JSON paths in ONE query that share a Python variable and differ in their literal keys (the builder registers one
+# composite parameter per path: each path must address its own sub-item)
+E2E2_DOCS = (
+    {'a': {'x': 1, 'y': 2}, 'b': {'x': 10, 'y': 20}, 'lst': [[1, 2], [3, 4]], 'x': {'a': 5, 'b': 6}},
+    {'a': {'x': 2, 'y': 2}, 'b': {'x': 'u', 'y': None}, 'lst': [[7], [8, 9]], 'x': {'a': 0}},
+    {'a': [{'x': 1}, {'y': 2}], 'b': {'y': 2}, 'lst': []},
+)
+E2E2_OPS = (
+    ('P', "(t.j[k]['x'], t.j[k]['y'])"), ('P', "(t.j['a'][k], t.j['b'][k])"), ('P', "(t.j['lst'][i][0], t.j['lst'][i][1])"),
+    ('P', "(t.j[k]['y'], t.j[k]['x'], t.j[k])"), ('P', "(t.j['lst'][i][1], t.j['lst'][0][i])"), ('P', "(t.j[k][k2], t.j[k2][k])"),
+    ('F', "t.j[k]['x'] == 1 and t.j[k]['y'] == 2"), ('F', "t.j['a'][k] == 2 and t.j['b'][k] == 20"), ('F', "t.j[k]['x'] == 2 or t.j[k]['y'] == 20"),
+    ('F', "t.j[k]['y'] and not t.j[k]['zz']"), ('F', "t.j['lst'][i][0] == 3 and t.j['lst'][i][1] == 4"), ('F', "'x' in t.j[k] and 'zz' not in t.j[k]"),
+)
+E2E2_K = ('a', 'b', 'x', 'y')
+
+
+def _e2e_two(doc, kind, expr, k, k2, i, json1):
+    from pony.orm import db_session, rollback, core
+    db, T = e2e_db()
+    if json1 and not _e2e['json1']: return True
+    scope = {'k': k, 'k2': k2, 'i': i}
+    def py(e):
+        try: return eval(e, {}, dict(scope, t=_Row(j=doc)))
+        except (KeyError, IndexError, TypeError): return MISSING
+    if kind == 'P':
+        parts = _split_tuple(expr)
+        want = tuple(py(p) for p in parts)
+        # a subscript of a string leaf / a string key on an array is outside (see section 4 above)
+        if any(_bad_step(doc, p, scope, json1) for p in parts): return True
+        want = tuple(None if w is MISSING else w for w in want)
+    else:
+        want = py(expr)
+        if want is MISSING: return True                    # Python has no answer for the row
+        if any(_bad_step(doc, p, scope, json1) for p in _paths_in(expr)): return True
+    db.provider.json1_available = json1
+    core_caches_clear(db)
+    try:
+        with db_session:
+            try:
+                T(j=doc)
+                core.flush()
+                src = '(%s for t in T)' % expr if kind == 'P' else '(t.id for t in T if %s)' % expr
+                got = core.select(src, {'T': T}, dict(scope))[:]
+            finally:
+                rollback()
+    finally:
+        db.provider.json1_available = _e2e['json1']
+    if kind == 'F': return bool(got) == bool(want)
+    if len(got) != 1: return False
+    got = tuple(g.get_untracked() if hasattr(g, 'get_untracked') else g for g in got[0])
+    return got == want and all(type(g) is type(w) or (isinstance(w, (int, float)) and not isinstance(w, bool) and isinstance(g, (int, float)))
+                               for g, w in zip(got, want))
+
+
+def _split_tuple(expr):
+    inner = expr.strip()[1:-1]
+    parts, depth, cur = [], 0, []
+    for c in inner:
+        if c in '[(': depth += 1
+        elif c in '])': depth -= 1
+        if c == ',' and depth == 0: parts.append(''.join(cur).strip()); cur = []
+        else: cur.append(c)
+    parts.append(''.join(cur).strip())
+    return parts
+
+
+def _paths_in(expr):
+    return re.findall(r"t\.j(?:\[[^\]]+\])+", expr)
+
+
+def _bad_step(doc, path_expr, scope, json1):
+    keys = [eval(x, {}, scope) for x in re.findall(r"\[([^\]]+)\]", path_expr)]
+    cur = doc
+    for k in keys:
+        if type(cur) is str: return True
+        cur = ref_get(cur, k)
+        if cur is MISSING: return False
+    return False
+
+
+def _json_e2e_two(d, op, k, k2, i, json1):
+    d, op = conc(d, 3), conc(op, 12)
+    kind, expr = E2E2_OPS[op]
+    k = conc(k, 4) if re.search(r"\bk\b", expr) else 0
+    k2 = conc(k2, 4) if 'k2' in expr else 0
+    i = conc(i, 2) if re.search(r"\bi\b", expr) else 0
+    with NoTracing():
+        return ok(_e2e_two(E2E2_DOCS[d], kind, expr, E2E2_K[k], E2E2_K[k2], i, json1))
+
+
+def json_e2e_two_paths_json1(d: int, op: int, k: int, k2: int, i: int) -> bool:
+    """
+    pre: 0 <= d < 3 and 0 <= op < 12 and 0 <= k < 4 and 0 <= k2 < 4 and 0 <= i <= 1
+    post: _
+    """
+    return _json_e2e_two(d, op, k, k2, i, True)
+
+
+def json_e2e_two_paths_fallback(d: int, op: int, k: int, k2: int, i: int) -> bool:
+    """
+    pre: 0 <= d < 3 and 0 <= op < 12 and 0 <= k < 4 and 0 <= k2 < 4 and 0 <= i <= 1
+    post: _
+    """
+    return _json_e2e_two(d, op, k, k2, i, False)
